@@ -224,14 +224,33 @@ pub fn enc_call(include_invalid: bool, over: bool, with_control: bool) -> BoxedS
     .boxed()
 }
 
+/// Prior history of a sending context: processed valid packets (requests,
+/// Success responses, vendor / SPDM messages), decode-only calls, other
+/// encodes and UUID updates.
+pub fn sender_history() -> BoxedStrategy<Vec<Op>> {
+    let op = prop_oneof![
+        5 => (ref_valid_packet(), 64u16..=128, any::<u8>()).prop_map(|(bytes, cap, fill)| Op::Process { bytes, cap, fill }),
+        2 => (actionable_request(), 64u16..=128, any::<u8>()).prop_map(|(bytes, cap, fill)| Op::Process { bytes, cap, fill }),
+        1 => ref_valid_packet().prop_map(|bytes| Op::Decode { bytes }),
+        2 => (prop_oneof![req_call(false), resp_call(false)], addr7()).prop_map(|(call, dest)| Op::Encode { call, dest }),
+        1 => uuid().prop_map(Op::SetUuid),
+    ];
+    prop_oneof![
+        2 => Just(Vec::new()).boxed(),
+        1 => vec(op, 1..=3).boxed(),
+    ]
+    .boxed()
+}
+
 pub fn enc_env(dest: BoxedStrategy<u8>) -> BoxedStrategy<EncEnv> {
-    (addr7(), dest, any_u8(), any_u8(), prop_oneof![3 => Just(false), 1 => Just(true)])
-        .prop_map(|(addr, dest, eid_req, eid_resp, eid_via_process)| EncEnv {
+    (addr7(), dest, any_u8(), any_u8(), prop_oneof![3 => Just(false), 1 => Just(true)], sender_history())
+        .prop_map(|(addr, dest, eid_req, eid_resp, eid_via_process, hist)| EncEnv {
             addr,
             dest,
             eid_req: if eid_via_process { eid_resp } else { eid_req },
             eid_resp,
             eid_via_process,
+            hist,
         })
         .boxed()
 }
@@ -504,7 +523,7 @@ pub type ReqWeights = [u32; 7];
 pub fn ctrl_request(a: u8, nvend: usize, w: ReqWeights) -> BoxedStrategy<Vec<u8>> {
     let nv = nvend.max(1);
     let kind: BoxedStrategy<(u8, Vec<u8>)> = proptest::strategy::Union::new_weighted(vec![
-        (w[0].max(1), (prop_oneof![3 => Just(0u8), 3 => Just(1u8), 2 => Just(3u8), 1 => Just(2u8)], set_eid_value(false)).prop_map(|(op, eid)| (0x01u8, vec![op, eid])).boxed()),
+        (w[0].max(1), (prop_oneof![6 => Just(0u8), 6 => Just(1u8), 3 => Just(3u8), 2 => Just(2u8), 1 => Just(4u8), 1 => Just(5u8), 1 => Just(0x80u8), 1 => Just(0x81u8), 1 => 4u8..=255], set_eid_value(false)).prop_map(|(op, eid)| (0x01u8, vec![op, eid])).boxed()),
         (w[1].max(1), Just((0x02u8, vec![])).boxed()),
         (w[2].max(1), Just((0x03u8, vec![])).boxed()),
         (w[3].max(1), any_u8().prop_map(|q| (0x04u8, vec![q])).boxed()),
@@ -519,7 +538,7 @@ pub fn ctrl_request(a: u8, nvend: usize, w: ReqWeights) -> BoxedStrategy<Vec<u8>
     ])
     .boxed();
     (
-        prop_oneof![5 => 0u8..=0x7F, 1 => Just(0x34u8), 1 => Just(0x7Fu8), 1 => Just(0x00u8)],
+        prop_oneof![5 => 0u8..=0x7F, 1 => Just(0x34u8), 1 => Just(0x7Fu8), 1 => Just(0x00u8), 2 => 0x80u8..=0xFF],
         prop_oneof![4 => 0u8..32, 1 => Just(0u8), 1 => Just(31u8)],
         any_u8(),
         prop_oneof![3 => Just(0xC8u8), 1 => (0u8..16).prop_map(|t| 0xC0 | t)],
@@ -604,6 +623,31 @@ pub fn responder_case(w: ReqWeights, seteid_noise: u32, uuid_updates: u32, max_o
             let a = cfg.addr;
             let n = cfg.vendors.len();
             (Just(cfg), vec(responder_op(a, n, w, seteid_noise, uuid_updates), 1..=max_ops))
+        })
+        .boxed()
+}
+
+/// A request handed to process_packet on a configured responder (for the
+/// framing / PEC / transport-header checks of generated responses).  The
+/// request's transport flags are arbitrary (any tag, any sequence number).
+pub fn resp_case() -> BoxedStrategy<crate::props::common::RespCase> {
+    ctx_cfg()
+        .prop_flat_map(|cfg| {
+            let a = cfg.addr;
+            let n = cfg.vendors.len();
+            (
+                Just(cfg),
+                prop_oneof![3 => Just(Vec::new()).boxed(), 1 => prior_history(3)],
+                ctrl_request(a, n, [2, 2, 2, 2, 2, 2, 2]),
+                prop_oneof![2 => Just(0xC8u8), 1 => any::<u8>().prop_map(|x| x | 0xC0), 1 => any::<u8>()],
+                64u16..=200,
+                any::<u8>(),
+            )
+        })
+        .prop_map(|(cfg, hist, mut req, flags, cap, fill)| {
+            req[7] = flags;
+            refmodel::fix_pec(&mut req);
+            crate::props::common::RespCase { cfg, hist, req, cap, fill }
         })
         .boxed()
 }
